@@ -72,8 +72,16 @@ def gen_one(rng):
     if c < 0.2:
         lk["inplay"] = rng.choice([True, False])
     elif c < 0.4:
+        if rng.random() < 0.4:
+            # the market is rescheduled part-way through the file: later updates carry a new marketTime
+            for m in sc["markets"]:
+                if len(m["updates"]) >= 4 and rng.random() < 0.7:
+                    k0 = rng.randint(1, len(m["updates"]) - 2)
+                    new_mt = m["market_time"] + rng.choice([-1, 1]) * rng.choice([2_000, 30_000, 600_000, 1_800_000])
+                    for u in m["updates"][k0:]:
+                        u["mt"] = new_mt
         mt = (m0["market_time"] // 1000) * 1000
-        cands = [(mt - u["pt"]) / 1000.0 for u in m0["updates"] if mt > u["pt"]]
+        cands = [((((u.get("mt") or m0["market_time"]) // 1000) * 1000) - u["pt"]) / 1000.0 for u in m0["updates"] if (u.get("mt") or m0["market_time"]) > u["pt"] + 1000]
         lk["seconds_to_start"] = rng.choice(cands) if cands and rng.random() < 0.6 else rng.choice([1.0, 30.0, 600.0])
     elif c < 0.6 and ips:
         later = [(p - ips[0]) / 1000 for p in ips[1:]]
